@@ -1,7 +1,11 @@
 CLAIMED = True
 
 CFG = dict(
-    rule="four case kinds, each against the real code. F (1 per run): one real saveState is run in a child process with an observer at the verifC16Point sites; the "
+    rule="five case kinds, each against the real code. T (startDuringSave, ~7 per quick run): an earlier run persisted non-default trigger settings; in the "
+         "next run a save is HELD at a step boundary inside the real saveState (observer at the verifC16Point site, so the configuration lock is held) "
+         "while a source is started (real Sample/PrepareChannels/PrepareRun); the save is released; the trigger state the started source reports must be "
+         "the saved one, and after that state has been published and saved (as SourceControl.Start does) the next real start-up must still restore the "
+         "saved triggers. F (1 per run): one real saveState is run in a child process with an observer at the verifC16Point sites; the "
          "directory is photographed at every site and the file-system steps are inferred from the differences, together with the keys saveState "
          "inserts and which probe topics a save writes; compared with the model's saveOps / saveAdds / noSave (primary tie, survives refactoring). "
          "The go/ast reader of saveState (steps with error policy, no-publish / no-save sets) is a secondary cross-check, compared in full when it "
@@ -25,7 +29,7 @@ CFG = dict(
          "settings and base path saved by the real saveState (optionally over a file of an earlier run) and restored by the real start-up "
          "(setupViper, RunRPCServer, PrepareRun), compared field by field. Non-trivial = a SENDALL reply with several topics after repeated "
          "updates, a read-back of a self-made save, a save window with a change plus a return-to-saved-value of another topic, a kill strictly inside the save, a kill inside the write, or a typed round trip; distinct by input line.",
-    nontrivial=["replay-multi-repeat", "saved", "window-revert", "window-multi", "crash-mid", "inwrite", "write-fails", "R"],
+    nontrivial=["replay-multi-repeat", "saved", "window-revert", "window-multi", "crash-mid", "inwrite", "write-fails", "R", "start-during-save"],
     jobs=seeds(1, 3),
     trusted_base=["POSIX semantics of rename(2) (atomic replace), link(2), unlink(2) and of a write that a kill can cut at any byte, as transcribed in "
                   "Model/C16.lean (three-file model; durability after power loss / fsync is not modelled: the property is about a process kill)",
@@ -78,6 +82,7 @@ THEOREMS = [
     ("DastardV.Props.C16", "DastardV.C16.C16_sendall_needs_json_text"),
     ("DastardV.Props.C16", "DastardV.C16.C16_saved_has_latest"),
     ("DastardV.Props.C16", "DastardV.C16.C16_saved_when_quiet"),
+    ("DastardV.Props.C16", "DastardV.C16.C16_start_restores_saved_triggers"),
     ("DastardV.Props.C16", "DastardV.C16.C16_lengths_legal_restored"),
     ("DastardV.Props.C16", "DastardV.C16.C16_lengths_sanitized_legal"),
     ("DastardV.Props.C16", "DastardV.C16.C16_crash_safe_of_shape"),
